@@ -33,7 +33,7 @@ def model_checks(tier):
 
 
 def cases(tier, seed, info):
-    n = 300 if tier == 'quick' else 12000
+    n = 300 if tier == 'quick' else 40000
     out = [dict(seed=seed * 2221 + j, start=j, n=10) for j in range(0, n, 10)]
     info['buffers'] = n
     return out
